@@ -13,7 +13,7 @@ def flat(e, planar):
 
 def lattice(rep, tier, seed):
     kinds = ["SE2", "SO3", "SE3"] if tier == "quick" else ["SE2", "SO3", "SE3", "SE_2_3", "SGal3"]
-    wd = os.path.join(vlib.CACHE, "work", "C01", "lattice"); os.makedirs(wd, exist_ok=True)
+    wd = vlib.workdir("C01lat")
     jobs = []
     for k in kinds:
         for sc, st in (("d", "double"), ("f", "float")):
